@@ -290,6 +290,9 @@ func verifModelBinaryWrite(w io.Writer, order binary.ByteOrder, data any) error 
 //@ requires sb != nil && !fsExists(path) && len(sb.mem) <= 0x3fffffffffffff00
 //@ propagates err from os.OpenFile, persistSegmentBaseToWriter, (*os.File).Sync, (*os.File).Close [C17]
 //@ assert persistSegmentBaseToWriter#1 : $sb == sb [C04]
+// the destination is created if missing and written from offset 0 (not in append mode: a path that already holds a
+// shorter file must end up holding exactly this segment): O_RDWR|O_CREATE = 66, with O_TRUNC 578
+//@ assert os.OpenFile#1 : $name == path && ($flag == 66 || $flag == 578) [C04,C17]
 //@ ensures err != nil ==> !fsExists(path) [C17]
 //@ ensures $liveFiles == old($liveFiles) [C17]
 //@ local ensures err == nil ==> fsExists(path) && fileSynced(f) && !fileOpen(f) [C17]
@@ -319,6 +322,7 @@ func verifModelBinaryWrite(w io.Writer, order binary.ByteOrder, data any) error 
 //@ requires !fsExists(path)
 //@ requires dropsInRange(segmentBases, drops)
 //@ propagates err from os.OpenFile, mergeToWriter, persistFooter, (*bufio.Writer).Flush, (*os.File).Sync, (*os.File).Close [C17,C18,C19]
+//@ assert os.OpenFile#1 : $name == path && ($flag == 66 || $flag == 578) [C04,C05,C17]
 //@ assert persistFooter#1 : typeis($writerIn, ptr_CountHashWriter) && payload($writerIn) == cr && $crcBeforeFooter == cr.crc && $chunkMode == chunkMode && $numDocs == numDocs && $storedIndexOffset == storedIndexOffset && $sectionsIndexOffset == sectionsIndexOffset && $fieldsIndexOffset == sectionsIndexOffset && $docValueOffset == 0 [C04,C05]
 //@ ensures err != nil ==> !fsExists(path) [C17,C18,C19]
 //@ ensures $liveFiles == old($liveFiles) [C17,C18]
@@ -384,6 +388,14 @@ func verifModelBinaryWrite(w io.Writer, order binary.ByteOrder, data any) error 
 //@ loop 4 invariant 0 <= i && (forall j int :: 0 <= j && j < i ==> len(vals[j]) == 0 && len(typs[j]) == 0 && len(poss[j]) == 0) [C05]
 //@ assert (*SegmentBase).visitStoredFields#1 : forall j int :: 0 <= j && j < len(fieldsInv) ==> len(vals[j]) == 0 && len(typs[j]) == 0 && len(poss[j]) == 0 [C05]
 //@ modifies *, ghost chanClosed[closeCh], ghost poolBalance, ghost poolOwned
+//@ end
+
+// closing an in-memory segment releases its caches (whatever the build: without vectors the vector cache is nil)
+//@ func (*SegmentBase).Close returns (err)
+//@ thin
+//@ tags [C20]
+//@ requires sb != nil && sb.synIndexCache != nil && muHeld(sb.synIndexCache.m) == 0 && vecCacheFree(sb)
+//@ ensures err == nil && sb.synIndexCache.cache == nil [C20]
 //@ end
 
 //@ func (*synonymIndexCache).Clear
@@ -1344,8 +1356,8 @@ func lemmaUvLenRange(a []byte, o int) {}
 //@ assert getChunkSize#1 : $cardinality == ite(postingsBS != nil, uint64(sCard(bmSet(postingsBS))), 0) [C01,C09]
 //@ assert getChunkSize#2 : $chunkMode == LegacyChunkMode && $cardinality == 0 && $maxDocs == 0 [C01,C03,C09]
 // a freq/norm record is the freq/has-locations word followed by the norm exactly when the frequency is not zero
-//@ assert (*chunkedIntCoder).Add#1 : freqNorm.freq > 0 && len($vals) == 2 && $vals[0] >> 1 == freqNorm.freq & 0x7fffffffffffffff && (($vals[0] & 1 != 0) <==> freqNorm.numLocs > 0) [C06,C09]
-//@ assert (*chunkedIntCoder).Add#2 : freqNorm.freq == 0 && len($vals) == 1 && $vals[0] >> 1 == 0 && (($vals[0] & 1 != 0) <==> freqNorm.numLocs > 0) [C06,C09]
+//@ assert (*chunkedIntCoder).Add#1 : freqNorm.freq > 0 && len($vals) == 2 && $vals[0] >> 1 == freqNorm.freq & 0x7fffffffffffffff && (($vals[0] & 1 != 0) <==> freqNorm.numLocs > 0) [C01,C09]
+//@ assert (*chunkedIntCoder).Add#2 : freqNorm.freq == 0 && len($vals) == 1 && $vals[0] >> 1 == 0 && (($vals[0] & 1 != 0) <==> freqNorm.numLocs > 0) [C01,C09]
 // the pass that sizes a hit's location block and the pass that writes it walk the same window of the term's location
 // list (numLocs entries from locOffset) and describe entry k by the same five numbers and array positions
 //@ assert totalUvarintBytes#1 : 0 <= $k && $k < freqNorm.numLocs && $a == uint64(locs[locOffset + $k].fieldID) && $b == locs[locOffset + $k].pos && $c == locs[locOffset + $k].start && $d == locs[locOffset + $k].end && int($e) == len(locs[locOffset + $k].arrayposs) && len($more) == len(locs[locOffset + $k].arrayposs) [C01,C09]
@@ -1401,6 +1413,13 @@ func lemmaUvLenRange(a []byte, o int) {}
 //@ ensures m.lowCurr == 0 && m.currKs == old(m.currKs) && m.currVs == old(m.currVs) && row(m.currKs) == old(row(m.currKs)) && row(m.currVs) == old(row(m.currVs))
 //@ loop 1 invariant 0 <= $k && $k <= len(m.currKs) && m.currKs == old(m.currKs) && m.currVs == old(m.currVs) && row(m.currKs) == old(row(m.currKs)) && row(m.currVs) == old(row(m.currVs)) && m.lowCurr == 0
 //@ loop 1 invariant len(m.lowIdxs) == 0 <==> (forall i int :: {m.currKs[i]} 0 <= i && i < $k ==> !enumLive(m, i, skipEmptyKey)) [C06,C08,C13]
+//@ end
+
+// the first step of an enumeration skips nothing (an input whose first key is the empty key is live)
+//@ func newEnumerator returns (e, err)
+//@ thin
+//@ tags [C06,C08,C13]
+//@ assert (*enumerator).updateMatches#1 : !$skipEmptyKey [C06,C08,C13]
 //@ end
 
 // ---- C12: thesaurus lookups ----
@@ -1676,6 +1695,13 @@ func lemmaSynonymCodeRoundTrip(synonymID, docID uint32) {
 //@ failsonly err from (*Segment).getSectionDvOffsets, (*SegmentBase).loadFieldDocValueReader [C03,C04]
 //@ end
 
+// the in-memory loader walks every (field, section) entry: it leaves the walk early only with an error
+//@ func (*SegmentBase).loadDvReaders returns (err)
+//@ thin
+//@ tags [C03,C04]
+//@ loop 1 early err != nil [C03,C04]
+//@ end
+
 // ---- C03: doc values ----
 
 //@ func ReadDocValueBoundary returns (start, end)
@@ -1900,6 +1926,9 @@ func lemmaSynonymCodeRoundTrip(synonymID, docID uint32) {
 // the loader rejects a thesaurus only for an empty or unreadable FST or an empty synonym table; every
 // (id, length, bytes) entry the writer can emit - including a zero length, the empty synonym - is accepted
 //@ local ensures e != nil ==> vellumLen == 0 || read <= 0 || err != nil || numSyns == 0 [C12]
+// entries are parsed only up to a count that fits a non-negative int: the writer leaves no table at all for a thesaurus
+// whose definitions all died, and the varint found in its place (2^64-1) must not be taken for a count
+//@ loop 1 invariant i > 0 ==> numSyns <= 0x7fffffffffffffff && int(i) <= int(numSyns) [C12,C13]
 //@ end
 
 //@ func (*synonymIndexCache).insertLOCKED
